@@ -179,7 +179,30 @@ def evaluate_jobs(out, rc, err, var, expect, lines_by_id):
     V = []
     cnt = dict(results=0, status={}, by_ep={}, invalid=0, errno_checked_calls=0, masked_hlen=0)
     seen = {}
+    # pass 1: suites whose own submit call (job API: exact attribution) leaves a code although the job completed
+    culprit = set()
+    suite_of = {}
+    for i, it in lines_by_id.items():
+        mm = re.search(r"cipher=(\d+) .*?hash=(\d+)", it)
+        suite_of[i] = "cipher=%s,hash=%s" % (mm.group(1), mm.group(2)) if mm else "?"
     for l in out.splitlines():
+        if l.startswith("R "):
+            d = kv(l)
+            if int(d["ep"]) in (0, 1) and int(d["status"]) == 3 and (int(d["sub_get"]) or int(d["sub_field"]) or int(d["sub_glob"])):
+                culprit.add(suite_of.get(int(d["id"]), "?"))
+    for l in out.splitlines():
+        if l.startswith("B "):
+            d = kv(l)
+            g, f, gl, ret = int(d["get"]), int(d["field"]), int(d["glob"]), int(d["ret"])
+            ids = [int(x) for x in d["ids"].split(",") if x]
+            if f == 0 and (g != 0 or gl != 0):
+                # burst accepted, yet imb_get_errno() != 0
+                who = sorted(set(suite_of.get(i, "?") for i in ids if suite_of.get(i) in culprit)) or ["unattributed"]
+                for w in who:
+                    V.append(dict(sig="errno-nonzero-after-success:submit:" + w, var=var, ep=int(d["ep"]), id=ids[0], item=lines_by_id.get(ids[0]),
+                                  burst_items=[lines_by_id.get(i) for i in ids][:16],
+                                  what="burst of %d accepted (returned %d) but imb_get_errno=%d field=%d mirror=%d" % (len(ids), ret, g, f, gl)))
+            continue
         if l.startswith("R "):
             d = kv(l)
             i, ep, st = int(d["id"]), int(d["ep"]), int(d["status"])
@@ -194,8 +217,8 @@ def evaluate_jobs(out, rc, err, var, expect, lines_by_id):
                 V.append(dict(sig="descriptor-field-changed:" + cellname, what="descriptor cell(s) altered: " + d["diff"], **where))
             if st not in (3, 4, 5, 6):
                 V.append(dict(sig="partial-status", what="job handed back with status %d (%s)" % (st, ST_NAMES.get(st, "?")), **where))
-            if st == 3 and (g != 0 or f != 0 or gl != 0):
-                V.append(dict(sig="errno-nonzero-after-success", what="job completed but the submit call left get=%d field=%d mirror=%d" % (g, f, gl), **where))
+            if st == 3 and ep in (0, 1) and (g != 0 or f != 0 or gl != 0):
+                V.append(dict(sig="errno-nonzero-after-success:submit:" + suite_of.get(i, "?"), what="job completed but the submit call left get=%d field=%d mirror=%d" % (g, f, gl), **where))
             if st == 4:
                 cnt["invalid"] += 1
                 if g == 0 or not in_err_range(g):
@@ -204,8 +227,6 @@ def evaluate_jobs(out, rc, err, var, expect, lines_by_id):
                     V.append(dict(sig="errno-field-differs", what="flagged job: field=%d but imb_get_errno=%d" % (f, g), **where))
                 elif i in expect and expect[i] is not None and g != expect[i]:
                     V.append(dict(sig="errno-wrong-code", what="flagged job: code %d, documented %d" % (g, expect[i]), **where))
-            if i in expect and expect[i] is not None and ep in (0, 2) and st != 4:
-                V.append(dict(sig="invalid-job-accepted", what="single-fault invalid job came back with status %d" % st, **where))
         elif l.startswith("E "):
             d = kv(l)
             V.append(dict(sig="errno-nonzero-after-success:" + d["call"], var=var, ep=int(d["ep"]), id=int(d.get("id", -1)),
